@@ -63,6 +63,20 @@ def extra_flags(rng, ts, frac=0.5):
     return tables.tree_sequence()
 
 
+def permute_nodes(rng, ts):
+    """renumber ALL nodes at random (samples no longer ids 0..n-1); same genealogy"""
+    import numpy as np
+    tables = ts.dump_tables()
+    perm = list(range(ts.num_nodes))
+    rng.shuffle(perm)
+    tables.subset(np.array(perm, dtype=np.int32), record_provenance=False,
+                  reorder_populations=False, remove_unreferenced=False)
+    tables.sort()
+    tables.build_index()
+    tables.compute_mutation_parents()
+    return tables.tree_sequence()
+
+
 def random_times(rng, ts, style=None):
     """arbitrary 'unconstrained' time vector for the nodes of ts"""
     n = ts.num_nodes
